@@ -643,10 +643,10 @@ fn shrink(scn: &PipeScn) -> Vec<PipeScn> {
     }
     if scn.shape == Shape::Piecewise && scn.nseg > 0 {
         let w = scn.kind.nc() + 1;
-        for i in (0..scn.nseg).rev() {
+        for (a, b) in removal_ranges(scn.nseg) {
             let mut s = scn.clone();
-            s.nums.drain(i * w..(i + 1) * w);
-            s.nseg -= 1;
+            s.nums.drain(a * w..b * w);
+            s.nseg -= b - a;
             out.push(s);
         }
     }
@@ -662,7 +662,7 @@ fn shrink(scn: &PipeScn) -> Vec<PipeScn> {
         s.nums.remove(0);
         out.push(s);
     }
-    for i in 0..scn.nums.len() {
+    for i in 0..scn.nums.len().min(256) {
         for v in [0.0, 1.0, scn.nums[i].round()] {
             if v.to_bits() != scn.nums[i].to_bits() && v.is_finite() {
                 let mut s = scn.clone();
